@@ -154,6 +154,10 @@ def intKey? : Key → Option Int
   | .i z => some z
   | .s _ => none
 
+/-- the int keys of a dict with their values, if *all* keys are ints. -/
+def intItems (items : Items) : Option (List (Int × Val)) :=
+  items.mapM (fun kv => (intKey? kv.1).map (fun z => (z, kv.2)))
+
 /-- `_merge_dict_into_list` (570-588): for the sorted int keys, overwrite below the *old* size,
 append otherwise. -/
 def mergeIntoList (oldSize : Nat) : List Val → List (Int × Val) → Except Err (List Val)
@@ -176,7 +180,7 @@ mutual
       | .ok r => .ok (.dict r)
       | .error e => .error e
     | .list l, .dict s =>
-      match s.mapM (fun kv => (intKey? kv.1).map (fun z => (z, kv.2))) with
+      match intItems s with
       | none => .error .key
       | some zs =>
         let sorted := sortInts (zs.map (·.1))
@@ -196,17 +200,27 @@ mutual
         | .error e => .error e
 end
 
+/-- The condition under which `try_listify_dict_with_int_keys(src, convert_when_sparse=False)`
+converts: non-empty, all keys ints, `min_key == 0 and max_key == len(src) - 1`. -/
+def isListifiable (items : Items) : Bool :=
+  match intItems items with
+  | none => false
+  | some zs =>
+    !zs.isEmpty &&
+      (let sorted := sortInts (zs.map (·.1))
+       sorted.head? == some 0 && sorted.getLast? == some (Int.ofNat zs.length - 1))
+
+/-- `[src[key] for key in sorted(src.keys())]`. -/
+def listifiedValues (zs : List (Int × Val)) : List Val :=
+  (sortInts (zs.map (·.1))).filterMap (fun z => (zs.find? (fun p => p.1 == z)).map (·.2))
+
 /-- `try_listify_dict_with_int_keys(src, convert_when_sparse=False)`. -/
 def tryListify (items : Items) : Val :=
-  match items.mapM (fun kv => (intKey? kv.1).map (fun z => (z, kv.2))) with
-  | none => .dict items
-  | some zs =>
-    if zs.isEmpty then .dict items
-    else
-      let sorted := sortInts (zs.map (·.1))
-      if sorted.head? == some 0 && sorted.getLast? == some (Int.ofNat zs.length - 1) then
-        .list (sorted.filterMap (fun z => (zs.find? (fun p => p.1 == z)).map (·.2)))
-      else .dict items
+  if isListifiable items then
+    match intItems items with
+    | some zs => .list (listifiedValues zs)
+    | none => .dict items
+  else .dict items
 
 mutual
   /-- `transform(canonical_dict, _listify_dict_equivalent)`: bottom-up. -/
